@@ -27,6 +27,7 @@ Definition out_beq (a b : ot) : bool :=
   match a, b with
   | OReq o r, OReq p q => option_beq N.eqb o p && resp_beq r q
   | ORes x, ORes y => Bool.eqb x y
+  | OCtx, OCtx => true
   | OFlush d, OFlush e => list_beq dent_beq d e
   | OHandle x, OHandle y => option_beq Bool.eqb x y
   | OVal x, OVal y => option_beq N.eqb x y
@@ -45,12 +46,14 @@ Definition H (n : name) : ev := ESecret n.
 Definition G (n : name) (now_s : N) : ev := ERead n (Z.of_N now_s).
 Definition L (n : name) (now_s : N) (fail : bool) : ev := ELookup n (Z.of_N now_s) fail.
 Definition X : ev := EShutdown.
+Definition C (k : N) : ev := ECancel (N.to_nat k).
 
 Definition rn : resp N := RNotChanged.
 Definition rv (v b : N) : resp N := RValue v b.
 Definition re : resp N := RErr.
 Definition oq (old : option N) (r : resp N) : ot := OReq old r.
 Definition os (ok : bool) : ot := ORes ok.
+Definition oc : ot := OCtx.
 Definition D (n : name) (v b last : N) : doc_entry N := (n, Some (v, b, Z.of_N last)).
 Definition ofl (d : list (doc_entry N)) : ot := OFlush d.
 Definition oh (h : option bool) : ot := OHandle h.
@@ -72,8 +75,8 @@ Definition mk_server (l : list (name * (N * N))) : server N :=
   fold_left (fun acc '(n, vb) => upd n vb acc) l [].
 
 (* which requests a poll must have issued by its end: exactly one per live name of the snapshot;
-   after a failed request the rest may be skipped (the poll fails either way), but never
-   duplicated or invented *)
+   after a failed request, or once the leader's context has ended, the rest may be skipped (the
+   poll fails either way), but never duplicated or invented *)
 Definition req_failed (fl : flight N) : bool :=
   existsb (fun '(n, i) => match req_version (fsnap fl) n with
                           | Some v => match answer i n v with RErr => true | _ => false end
@@ -81,7 +84,7 @@ Definition req_failed (fl : flight N) : bool :=
 Fixpoint nodupb (l : list name) : bool :=
   match l with [] => true | x :: r => negb (mem x r) && nodupb r end.
 Definition well_requested (fl : flight N) : bool :=
-  if req_failed fl
+  if req_failed fl || lead_dead fl
   then (let want := map fst (requests (fsnap fl)) in let got := map fst (finst fl) in
         nodupb got && forallb (fun n => mem n want) got)
   else complete fl.
